@@ -432,6 +432,15 @@ def _derivative_guard(f, index_name) -> bool:
 # ---------------------------------------------------------------------------
 
 
+def derivative_series_name(f: ast.FunctionDef, rule: str) -> str:
+    """The local that holds the series of Taylor derivatives: the one whose `.eval` is set to `derivative_eval`."""
+    hits = [n for n in own_nodes(f) if isinstance(n, ast.Assign) and isinstance(n.targets[0], ast.Attribute) and n.targets[0].attr == "eval"
+            and isinstance(n.targets[0].value, ast.Name) and norm(n.value) == "derivative_eval"]
+    if len(hits) != 1:
+        raise AnalysisError(rule, "_sympy_to_BlockSeries: the series whose eval is derivative_eval was not found")
+    return hits[0].targets[0].value.id
+
+
 def rule_taylor(rep: Report, repo: Repo):
     R = "E2.taylor"
     f = repo.find("block_diagonalization::_sympy_to_BlockSeries", R)
@@ -441,6 +450,7 @@ def rule_taylor(rep: Report, repo: Repo):
     if len(d) != 1 or len(o) != 1:
         raise AnalysisError(R, "derivative_eval / op_eval not found")
     d, o = d[0], o[0]
+    DER = derivative_series_name(f, R)
     idx = d.args.vararg.arg
     # (axis, order) selection, decrement, differentiation and divisor refer to the same pair
     sel = _derivative_selection(d, idx)
@@ -463,7 +473,7 @@ def rule_taylor(rep: Report, repo: Repo):
             num, den = rv.left, rv.right
             good = (norm(den) == order and isinstance(num, ast.Call) and isinstance(num.func, ast.Attribute)
                     and num.func.attr == "diff" and len(num.args) == 1 and norm(num.args[0]) == f"symbols[{axis}]"
-                    and isinstance(num.func.value, ast.Subscript) and norm(num.func.value.value) == "operator_derivatives")
+                    and isinstance(num.func.value, ast.Subscript) and norm(num.func.value.value) == DER)
         inst = "_sympy_to_BlockSeries::derivative_eval element n = d/d(symbol_k) of element n-e_k, divided by n_k"
         if good:
             rep.ok(R, inst, f"`{norm(ret[0])}`; axis={axis}, order={order}", loc(d))
@@ -481,7 +491,7 @@ def rule_taylor(rep: Report, repo: Repo):
         return isinstance(e, ast.Call) and call_name(e) == "dict.fromkeys" and [norm(a_) for a_ in e.args] == ["symbols", "0"]
     if len(subs) != 1 or len(subs[0].args) != 1:
         raise AnalysisError(R, "op_eval: substitution of the symbols not found")
-    ok = norm(subs[0].func.value) == f"operator_derivatives[{oi}]" and zero_map(subs[0].args[0])
+    ok = norm(subs[0].func.value) == f"{DER}[{oi}]" and zero_map(subs[0].args[0])
     rep.check(ok, R, "_sympy_to_BlockSeries::op_eval evaluates the derivative at symbols = 0",
               norm(subs[0]) if subs else "missing", loc(o))
     mono = [n for n in own_nodes(o) if isinstance(n, ast.ListComp) or isinstance(n, ast.GeneratorExp)]
@@ -503,7 +513,7 @@ def rule_taylor(rep: Report, repo: Repo):
         if oc.kind != "return" or oc.value is None:
             raise AnalysisError(R, "op_eval: path without a returned value")
         n_ret += 1
-        reads = any(isinstance(n_, ast.Subscript) and norm(n_.value) == "operator_derivatives" and norm(n_.slice) == oi for n_ in ast.walk(oc.value))
+        reads = any(isinstance(n_, ast.Subscript) and norm(n_.value) == DER and norm(n_.slice) == oi for n_ in ast.walk(oc.value))
         if reads:
             continue
         if norm(oc.value) == "zero":
@@ -545,8 +555,11 @@ def rule_taylor(rep: Report, repo: Repo):
               ("returns `zero` without computing the coefficient when: " + " | ".join(shortcuts)) if shortcuts else "", loc(o))
     # dimension names = the same `symbols` sequence
     ctors = [n for n in own_nodes(f) if isinstance(n, ast.Call) and call_name(n) == "BlockSeries"]
-    ok = bool(ctors) and all({k.arg: norm(k.value) for k in c.keywords}.get("dimension_names") == "symbols" and
-                             {k.arg: norm(k.value) for k in c.keywords}.get("n_infinite") == "n_infinite" for c in ctors)
+    from .resolve import env_at as _ea_c, rtext as _rt_c
+    def _kw(c_):
+        e_ = {k_: v_ for k_, v_ in _ea_c(c_, f).items() if k_ != "symbols"}
+        return {k.arg: _rt_c(k.value, e_) for k in c_.keywords}
+    ok = bool(ctors) and all(_kw(c).get("dimension_names") == "symbols" and _kw(c).get("n_infinite") == "len(symbols)" for c in ctors)
     rep.check(ok, R, "_sympy_to_BlockSeries series carry dimension_names=symbols, n_infinite=len(symbols)", "", loc(f))
 
 
@@ -576,7 +589,9 @@ def rule_key_normalisation(rep: Report, repo: Repo):
         raise AnalysisError(R, f"_list_to_dict: pairing of perturbations with orders not recognised ({len(pairings)} zip constructs)")
     tgt, it, key, val, node = pairings[0]
     env = env_at(node, f)
-    N = rtext(ast.Name(id="n_infinite", ctx=ast.Load()), env)
+    # the number of parameters: what the order tuples are as long as (the size of the identity the perturbations are zipped with)
+    eyes = [x for x in ast.walk(resolved(it, env)) if isinstance(x, ast.Call) and call_name(x) in ("np.eye", "np.identity") and x.args]
+    N = norm(eyes[0].args[0]) if eyes else "?"
     ok = False
     if len(it.args) == 2 and isinstance(tgt, ast.Tuple) and len(tgt.elts) == 2:
         a_, b_ = (resolved(x, env) for x in it.args)
